@@ -148,7 +148,19 @@ def _replay(rec):
     return 0
 
 
+def deductive(ctx):
+    """engine D: structure() hands every entry of a COPY of the dictionary to `define` of the module its `type` names
+    (executor positional, everything else by keyword); filter_out_defaults omits an attribute only when it equals its default
+    -- contracts/structure.py.  unstructure's comprehension pipeline and the `define` functions are bounded only."""
+    from contracts import structure as ST
+    from pyvc.verify import verify, summarize
+
+    for mk in (ST.structure_contract, ST.filter_contract):
+        summarize(ctx, verify(ctx, mk()))
+
+
 def run(ctx):
+    deductive(ctx)
     with T.private_hash_cache():
         _run(ctx)
 
